@@ -2,6 +2,7 @@
   C10 — passphrase files stand alone and bound the work they demand.
 -/
 import Proofs.FileLabels
+import Proofs.TapeLayout
 import AgeModel.CliIdent
 import Proofs.ToyPrims
 namespace AgeModel
@@ -133,35 +134,33 @@ theorem scrypt_never_mixed_encrypt (P : Prims) (tape : Bytes) (rs : List Recipie
     rw [← hl2] at hl1
     simp at hl1
 
-/-- Two passphrase recipients in one list: if Encrypt accepts, the two 16-byte label
-    draws were equal (a collision of the random source) — the reduction form of
-    "a second passphrase recipient is refused". -/
-theorem two_scrypt_need_equal_labels (P : Prims) (tape : Bytes) (rs : List Recipient) (fk : Bytes) (st : List Stanza) (t : Bytes)
-    (hh : encryptHeader P tape rs = .ok (fk, st, t)) (r1 r2 : Recipient)
-    (h1 : r1 ∈ rs) (h2 : r2 ∈ rs) (hs1 : ∃ pw n, r1 = .scrypt pw n) (hs2 : ∃ pw n, r2 = .scrypt pw n) :
-    ∃ tp1 tp2 salt1 lab1 r1' salt2 lab2 r2', tp1 = salt1 ++ lab1 ++ r1' ∧ tp2 = salt2 ++ lab2 ++ r2' ∧
-      lab1.length = 16 ∧ lab2.length = 16 ∧ hexLower lab1 = hexLower lab2 := by
-  obtain ⟨_, t0, _, hw⟩ := encryptHeader_fk hh
-  cases rs with
-  | nil => simp at h1
-  | cons r rs' =>
-    obtain ⟨ss, l, t1, hw1, hall⟩ := wrapAll_labels_none P fk r rs' 0 t0 [] st t hw
-    have hlab : ∀ r' ∈ r :: rs', ∃ tp ss' l' t', wrapOne P r' fk tp = .ok (some (ss', l'), t') ∧ sortLabels l' = sortLabels l := by
-      intro r' hr'
-      simp only [List.mem_cons] at hr'
-      rcases hr' with rfl | hr'
-      · exact ⟨t0, ss, l, t1, hw1, rfl⟩
-      · exact hall r' hr'
-    obtain ⟨pw1, n1, rfl⟩ := hs1
-    obtain ⟨pw2, n2, rfl⟩ := hs2
-    obtain ⟨tp1, ss1, l1, t1', hws1, hl1⟩ := hlab _ h1
-    obtain ⟨tp2, ss2, l2, t2', hws2, hl2⟩ := hlab _ h2
-    obtain ⟨salt1, lab1, e1, _, hlen1, hl1e⟩ := wrapOne_labels_scrypt P pw1 n1 fk tp1 ss1 l1 t1' hws1
-    obtain ⟨salt2, lab2, e2, _, hlen2, hl2e⟩ := wrapOne_labels_scrypt P pw2 n2 fk tp2 ss2 l2 t2' hws2
-    rw [hl1e, sortLabels_singleton] at hl1
-    rw [hl2e, sortLabels_singleton, ← hl1] at hl2
-    simp only [List.cons.injEq, and_true] at hl2
-    exact ⟨tp1, tp2, salt1, lab1, t1', salt2, lab2, t2', e1, e2, hlen1, hlen2, hl2.symm⟩
+/-- Two passphrase recipients in one list — anywhere in it: `pre`, `mid`, `post` are arbitrary. If Encrypt accepts the
+    list, then the 16 bytes of the REAL tape that are the first one's label draw (after the 16 bytes of the file key, what
+    `pre` consumed, and the first one's 16 bytes of salt) EQUAL the 16 bytes of the tape that are the second one's label
+    draw (32 bytes of the first one and what `mid` consumed further on, after its own salt): a collision of the random
+    source between two disjoint 16-byte slices — the reduction form of "a second passphrase recipient is refused". -/
+theorem two_scrypt_need_equal_labels (P : Prims) (tape : Bytes) (pre mid post : List Recipient) (pw1 : Bytes) (n1 : Nat) (pw2 : Bytes) (n2 : Nat)
+    (fk : Bytes) (st : List Stanza) (t : Bytes)
+    (hh : encryptHeader P tape (pre ++ Recipient.scrypt pw1 n1 :: (mid ++ Recipient.scrypt pw2 n2 :: post)) = .ok (fk, st, t)) :
+    (tape.drop (16 + (pre.map drawSize).sum + 16)).take 16 =
+      (tape.drop (16 + (pre.map drawSize).sum + 32 + (mid.map drawSize).sum + 16)).take 16 := by
+  obtain ⟨l0, hall⟩ := encryptHeader_located P tape _ fk st t hh
+  obtain ⟨ss1, l1, t1, hw1, hl1⟩ := hall pre (.scrypt pw1 n1) (mid ++ Recipient.scrypt pw2 n2 :: post) rfl
+  obtain ⟨ss2, l2, t2, hw2, hl2⟩ := hall (pre ++ Recipient.scrypt pw1 n1 :: mid) (.scrypt pw2 n2) post (by simp)
+  have e1 := wrapOne_label_scrypt_located P pw1 n1 fk _ ss1 l1 t1 hw1
+  have e2 := wrapOne_label_scrypt_located P pw2 n2 fk _ ss2 l2 t2 hw2
+  rw [e1, sortLabels_singleton] at hl1
+  rw [e2, sortLabels_singleton, ← hl1] at hl2
+  simp only [List.cons.injEq, and_true] at hl2
+  have hslice := (hexLower_inj _ _ hl2).symm
+  rw [List.drop_drop, List.drop_drop] at hslice
+  have hsum : ((pre ++ Recipient.scrypt pw1 n1 :: mid).map drawSize).sum =
+      (pre.map drawSize).sum + 32 + (mid.map drawSize).sum := by
+    simp [drawSize, Nat.add_assoc]
+  rw [hsum] at hslice
+  rw [show 16 + (pre.map drawSize).sum + 32 + (mid.map drawSize).sum + 16 =
+      16 + ((pre.map drawSize).sum + 32 + (mid.map drawSize).sum) + 16 by omega]
+  exact hslice
 
 /-! ## the command line tool's own passphrase identity (cmd/age `LazyScryptIdentity`)
     and its passphrase-protected identities file (`EncryptedIdentity`) -/
@@ -319,14 +318,20 @@ example : encryptHeader Prims.toy (List.replicate 100 7)
     [Recipient.scrypt [112] 10, Recipient.x25519 (List.replicate 32 0)] = .error .incompatible := by rfl
 
 /-- non-vacuity of `two_scrypt_need_equal_labels`: on the constant tape 7,7,7,… the two label draws coincide, and Encrypt accepts
-    two different passphrase recipients -/
+    two different passphrase recipients (`pre = []`, `mid = []`, `post = []`) -/
 theorem two_scrypt_need_equal_labels_nonvacuous :
-    ∃ st, encryptHeader Prims.toy (List.replicate 100 7) [Recipient.scrypt [112] 10, Recipient.scrypt [113] 12] =
-        .ok (List.replicate 16 7, st, List.replicate 20 7) ∧
-      Recipient.scrypt [112] 10 ∈ [Recipient.scrypt [112] 10, Recipient.scrypt [113] 12] ∧
-      Recipient.scrypt [113] 12 ∈ [Recipient.scrypt [112] 10, Recipient.scrypt [113] 12] ∧
-      (∃ pw n, Recipient.scrypt [112] 10 = .scrypt pw n) ∧ (∃ pw n, Recipient.scrypt [113] 12 = .scrypt pw n) :=
-  ⟨_, rfl, List.mem_cons_self, List.mem_cons_of_mem _ List.mem_cons_self, ⟨_, _, rfl⟩, ⟨_, _, rfl⟩⟩
+    ∃ st, encryptHeader Prims.toy (List.replicate 100 7)
+        ([] ++ Recipient.scrypt [112] 10 :: ([] ++ Recipient.scrypt [113] 12 :: [])) =
+        .ok (List.replicate 16 7, st, List.replicate 20 7) := ⟨_, rfl⟩
+
+/-- … the conclusion at that witness: bytes 32..47 of the tape (the first label draw) are bytes 64..79 (the second) -/
+example : ((List.replicate 100 7 : Bytes).drop 32).take 16 = ((List.replicate 100 7 : Bytes).drop 64).take 16 := by
+  obtain ⟨st, h⟩ := two_scrypt_need_equal_labels_nonvacuous
+  exact two_scrypt_need_equal_labels _ _ [] [] [] _ _ _ _ _ _ _ h
+
+/-- … and on the tape 0,1,2,…, where the two draws differ, the same list is refused -/
+example : encryptHeader Prims.toy ((List.range 100).map Nat.toUInt8)
+    [Recipient.scrypt [112] 10, Recipient.scrypt [113] 12] = .error .incompatible := by rfl
 
 /-- non-vacuity of `cli_passphrase_stanza_alone`: the two-stanza header of `scrypt_identity_alone_nonvacuous` (same hypotheses) -/
 theorem cli_passphrase_stanza_alone_nonvacuous :
